@@ -31,7 +31,16 @@ inductive Allow
   | unbounded
   deriving DecidableEq, Repr
 
-/-- `send [asset amt] (source = @src [allowing …] destination = @dst)` / a forced posting -/
+/-- one more `send` statement of the same script -/
+structure Leg where
+  src : Nat
+  dst : Nat
+  amt : Nat
+  allow : Allow
+  deriving Repr
+
+/-- `send [asset amt] (source = @src [allowing …] destination = @dst)` / a forced posting
+    (plus, optionally, further `send` statements of the same script: `legs`) -/
 structure Send where
   l : Nat
   /-- HASH_LOGS = SYNC -/
@@ -47,7 +56,29 @@ structure Send where
   ik : Nat := 0
   hash : Nat := 0
   ref : Nat := 0
+  /-- ids of the accounts the transaction involves (sorted by address), for `UpsertAccounts` -/
+  accts : List Nat := []
+  /-- further `send` statements of the script, in order -/
+  legs : List Leg := []
+  /-- the pairs `GetBalances` asks for (distinct bounded sources, sorted); `[]` = the single leg's source -/
+  readPairs : List Nat := []
+  /-- the rows of `UpdateVolumes` (aggregated per pair, sorted); `[]` = the single leg's two rows -/
+  dsAll : List (Nat × Int) := []
   deriving Repr
+
+def adjust (bal : List (Nat × Int)) (p : Nat) (d : Int) : List (Nat × Int) :=
+  bal.map (fun (k, v) => if k = p then (k, v + d) else (k, v))
+
+/-- the machine's funds check, statement by statement on the balances it tracks (those it read):
+    a bounded source must cover the amount with its allowance (a zero amount is never refused);
+    every posting then moves the tracked balances -/
+def fundsOk : List (Nat × Int) → List Leg → Bool
+  | _, [] => true
+  | bal, g :: r =>
+    (match g.allow with
+     | .unbounded => true
+     | .bounded x => g.amt = 0 || ((bal.lookup g.src).getD 0) + (x : Int) ≥ (g.amt : Int)) &&
+    fundsOk (adjust (adjust bal g.src (- (g.amt : Int))) g.dst (g.amt : Int)) r
 
 structure Revert where
   l : Nat
@@ -75,6 +106,7 @@ def errName : Err → String
   | .deadlock => "deadlock"
   | .aborted => "other"
   | .noSavepoint => "other"
+  | .uniqueAcct => "pg:23505"
 
 /-- `forgeLog` retries on a deadlock or an idempotency-key conflict -/
 def retryable : Err → Bool
@@ -89,27 +121,35 @@ def guardErr (o : Out) (onE : Err → Prog) (k : Prog) : Prog :=
   | some e => onE e
   | none => k
 
+/-- the rows of `UpdateVolumes` -/
+def Send.ds (q : Send) : List (Nat × Int) :=
+  if !q.dsAll.isEmpty then q.dsAll
+  else if q.src = q.dst then [(q.src, 0)]
+  else if q.srcFirst then [(q.src, - (q.amt : Int)), (q.dst, (q.amt : Int))]
+  else [(q.dst, (q.amt : Int)), (q.src, - (q.amt : Int))]
+
+/-- the pairs `GetBalances` asks for -/
+def Send.reads (q : Send) : List Nat :=
+  if !q.readPairs.isEmpty then q.readPairs
+  else match q.allow with | .bounded _ => [q.src] | .unbounded => []
+
 /-- `runLog` + the operation for a send. `fail e` = what to do when a statement
     failed with `e` (the caller rolls back and decides), `refuse r` = business
     refusal, `succ tx log` = the log is inserted. -/
 def sendBody (q : Send) (fail : Err → Prog) (refuse : String → Prog) (succ : Nat → Nat → Prog) : Prog :=
   let onErr (o : Out) (k : Prog) : Prog := match o.err with | some e => fail e | none => k
-  let ds : List (Nat × Int) :=
-    if q.src = q.dst then [(q.src, 0)]
-    else if q.srcFirst then [(q.src, - (q.amt : Int)), (q.dst, (q.amt : Int))]
-    else [(q.dst, (q.amt : Int)), (q.src, - (q.amt : Int))]
   let write : Prog :=
-    .stmt (.updateVolumes ds) fun o => onErr o <|
+    .stmt (.updateVolumes q.ds) fun o => onErr o <|
     .stmt (.insertTx q.l q.ref none) fun o => onErr o <|
       let tx := headNat o
       let ins : Prog := .stmt (.insertLog q.l q.ik q.hash q.sync none tx) fun o' => onErr o' (succ tx (headNat o'))
+      .stmt (.upsertAccounts q.accts) fun oa => onErr oa <|
       if q.sync then .stmt (.advLockLog q.l) fun o' => onErr o' ins else ins
-  match q.allow with
-  | .unbounded => write
-  | .bounded x =>
-    .stmt (.getBalances [q.src]) fun o => onErr o <|
-      -- a zero amount is never refused (nothing is taken, whatever the balance)
-      if q.amt = 0 ∨ (o.vals.headD 0) + (x : Int) ≥ (q.amt : Int) then write else refuse "insufficient-funds"
+  if q.reads.isEmpty then write
+  else
+    .stmt (.getBalances q.reads) fun o => onErr o <|
+      if fundsOk (q.reads.zip o.vals) ({ src := q.src, dst := q.dst, amt := q.amt, allow := q.allow } :: q.legs)
+      then write else refuse "insufficient-funds"
 
 /-- `runLog` + `revertTransaction` -/
 def revertBody (q : Revert) (fail : Err → Prog) (refuse : String → Prog) (succ : Nat → Nat → Prog) : Prog :=
@@ -244,6 +284,7 @@ structure ImpLog where
   ik : Nat
   hash : Nat
   ds : List (Nat × Int)
+  accts : List Nat := []
   deriving Repr
 
 /-- `controllerFacade.Import` ∘ `DefaultController.Import`: session-level ledger lock, state check,
@@ -263,6 +304,7 @@ def importProg (l : Nat) (sync : Bool) (logs : List ImpLog) : Prog :=
         .stmt (.insertTx l g.ref (some g.tx)) fun o => onErr o <|
           let ins : Prog := .stmt (.insertLog l g.ik g.hash sync (some g.id) g.tx) fun o' => onErr o' <|
             .stmt .commit fun _ => loop g.id gs
+          .stmt (.upsertAccounts g.accts) fun oa => onErr oa <|
           if sync then .stmt (.advLockLog l) fun o' => onErr o' ins else ins
   .stmt (.lockLedgerS l) fun o => guardErr o (fun e => .done { err := errName e }) <|
     .stmt (.readState l) fun o =>
@@ -282,6 +324,7 @@ def Stmt.kind : Stmt → String
   | .updateState _ => "updateState" | .setval _ => "setval" | .readState _ => "readState"
   | .readIK _ _ => "readIK" | .readLastLog _ => "readLastLog"
   | .getBalances _ => "getBalances" | .updateVolumes _ => "updateVolumes" | .insertTx _ _ _ => "insertTx"
+  | .upsertAccounts _ => "upsertAccounts"
   | .advLockLog _ => "advLockLog" | .insertLog _ _ _ _ _ _ => "insertLog"
   | .revertUpdate _ _ g => if g then "revertUpdate" else "revertUpdateUnguarded"
   | .createBlocks _ _ => "createBlocks"
@@ -303,6 +346,7 @@ def Stmt.kindK : Stmt → Kind
   | .updateState _ => .updateState | .setval _ => .setval | .readState _ => .readState
   | .readIK _ _ => .readIK | .readLastLog _ => .readLastLog
   | .getBalances _ => .getBalances | .updateVolumes _ => .updateVolumes | .insertTx _ _ _ => .insertTx
+  | .upsertAccounts _ => .upsertAccounts
   | .advLockLog _ => .advLockLog | .insertLog _ _ _ _ _ _ => .insertLog
   | .revertUpdate _ _ g => if g then .revertUpdate else .revertUpdateUnguarded
   | .createBlocks _ _ => .createBlocks
